@@ -475,11 +475,12 @@ Definition sort_store (st : store) : store := fold_right insert_kv [] st.
 Definition ev_lt (a b : event) : bool :=
   let ia := Z.of_nat (ev_idx a) in let ib := Z.of_nat (ev_idx b) in
   (ia <? ib) || ((ia =? ib) && (ev_name a <? ev_name b)).
-(* stable: an element is inserted after every element that is not greater *)
+(* stable: sort_events folds from the right, so the element being inserted precedes (in the original order) every
+   element already in l: it goes BEFORE the first element that is not smaller *)
 Fixpoint insert_ev (e : event) (l : list event) : list event :=
   match l with
   | [] => [e]
-  | h :: r => if ev_lt e h then e :: l else h :: insert_ev e r
+  | h :: r => if ev_lt h e then h :: insert_ev e r else e :: l
   end.
 Definition sort_events (l : list event) : list event := fold_right insert_ev [] l.
 
